@@ -78,7 +78,12 @@ func zzC14_notify() {
 			if !terminated {
 				bad := zzPlainMessage(257, 0x80, 0, 0xdead)
 				bad[1], bad[2], bad[3] = 0, 0, 5
-				t.in <- append(bad, zzPlainMessage(257, 0x80, 0, 0xbeef)...)
+				tail := zzPlainMessage(257, 0x80, 0, 0xbeef)
+				if zzFlag("bigTrailer") {
+					// more trailing data than the connection's 4 KiB read buffer takes in one gulp
+					tail = append(tail, make([]byte, 5000)...)
+				}
+				t.in <- append(bad, tail...)
 				poisoned = true
 				terminated = true
 			}
